@@ -63,7 +63,7 @@ def bwdSubst {N : Nat} (unit : Bool) (L : Mat K N N) (y : Vec K N) : Vec K N :=
     x.set i (if unit then t else t / L[i][i])) y
 
 /-- inner factorisation of the sparse back ends: LDLᵀ of `K(perm, perm)`, then `L⁻¹`, `D⁻¹`, `L⁻ᵀ` -/
-def innerLDLT [DecidableEq K] (be : Backend) (perm : Vector (Fin (n + p + m)) (n + p + m)) : Inner K n p m :=
+def innerLDLT [BEq K] (be : Backend) (perm : Vector (Fin (n + p + m)) (n + p + m)) : Inner K n p m :=
   fun kb =>
     match ldlt (n + p + m) (permSym (assemble be kb) perm) with
     | .error _ => none
